@@ -176,6 +176,74 @@ def _grid_chunk(args):
         return {'error': traceback.format_exc()}
 
 
+def _atheris_campaign(prop_id, seed, runs, size):
+    """NPROC independent libFuzzer workers (half from an empty corpus, half from a few
+    seed inputs), bounded by -runs, per-worker corpus dirs in a temp dir that is removed."""
+    import shutil
+    import subprocess
+    import tempfile
+    deps = os.path.join(ROOT, '.deps')
+    env = dict(os.environ)
+    env['PYTHONPATH'] = os.pathsep.join([os.environ.get('H2VERIF_SRC', '/repo/src'), ROOT, deps])
+    probe = subprocess.run([sys.executable, '-c', 'import atheris'], env=env, capture_output=True)
+    if probe.returncode != 0:
+        return {'skipped': 'atheris not importable (run ./setup.sh)'}
+    tmp = tempfile.mkdtemp(prefix='h2verif-fuzz-')
+    try:
+        procs = []
+        per = max(1, runs // NPROC)
+        for i in range(NPROC):
+            d = os.path.join(tmp, 'w%d' % i)
+            os.makedirs(os.path.join(d, 'corpus'))
+            if i % 2:
+                for j in range(8):
+                    blob = b''
+                    ctr = 0
+                    while len(blob) < size:
+                        blob += hashlib.blake2b(b'%d/%d/%d/%d' % (seed, i, j, ctr)).digest()
+                        ctr += 1
+                    with open(os.path.join(d, 'corpus', 'seed%d' % j), 'wb') as f:
+                        f.write(blob[:size])
+            cmd = [sys.executable, '-m', 'h2verif.athfuzz', prop_id, d, '-runs=%d' % per,
+                   '-seed=%d' % (seed * 1000 + i + 1), '-max_len=%d' % size, '-print_final_stats=1',
+                   os.path.join(d, 'corpus')]
+            procs.append((d, subprocess.Popen(cmd, env=env, cwd=ROOT, stdout=subprocess.DEVNULL,
+                                              stderr=subprocess.PIPE, text=True)))
+        total = 0
+        evals = 0
+        digests = set()
+        found = {}
+        for d, p in procs:
+            _, err = p.communicate()
+            if p.returncode != 0:
+                return {'error': 'atheris worker failed (exit %s):\n%s' % (p.returncode, err[-3000:])}
+            n = 0
+            for line in err.splitlines():
+                if line.startswith('stat::number_of_executed_units:'):
+                    n = int(line.split(':')[-1])
+            total += n
+            try:
+                a_n, a_e = open(os.path.join(d, 'stats.txt')).read().split()
+                evals += max(int(a_e), n)
+            except (OSError, ValueError):
+                evals += n
+            blob = open(os.path.join(d, 'digests.bin'), 'rb').read()
+            for k in range(0, len(blob) - 7, 8):
+                digests.add(blob[k:k + 8])
+            for line in open(os.path.join(d, 'findings.txt')):
+                parts = line.rstrip('\n').split('\t')
+                if len(parts) >= 2:
+                    data = bytes.fromhex(parts[1])
+                    if parts[0] not in found or len(data) < len(found[parts[0]][0]):
+                        found[parts[0]] = (data, parts[2] if len(parts) > 2 else '')
+        return {'tool': 'atheris/libFuzzer', 'workers': NPROC, 'runs_per_worker': per,
+                'executed_units': total, 'evaluations': evals, 'distinct_nontrivial_seen': len(digests),
+                'corpus': 'even workers: empty corpus; odd workers: 8 seed inputs',
+                'digests': digests, 'found': found}
+    finally:
+        shutil.rmtree(tmp, ignore_errors=True)
+
+
 # ---------------------------------------------------------------------------
 # shrinking: bounded delta debugging over the case bytes
 
@@ -406,6 +474,22 @@ def main(argv=None):
         pool.terminate()
         pool.join()
 
+    # 3b. coverage-guided campaign over the same case bytes (atheris / libFuzzer)
+    fuzz_info = None
+    runs = cfg.get('atheris_runs', 0)
+    if runs and not a.cases:
+        fuzz_info = _atheris_campaign(prop_id, seed, runs, cfg['size'])
+        if fuzz_info.get('error'):
+            print(fuzz_info['error'])
+            print('HARNESS-ERROR: atheris campaign failed')
+            return 2
+        if not fuzz_info.get('skipped'):
+            total_eval += fuzz_info['evaluations']
+            nontrivial |= fuzz_info.pop('digests')
+            for key, (data, detail) in fuzz_info.pop('found').items():
+                if key not in found or len(data) < len(found[key][0]):
+                    found[key] = (data, detail)
+
     # 4. shrink each root cause (key) and write replays
     budget = 400 if tier == 'quick' else 3000
     for key in sorted(found)[:8]:
@@ -446,6 +530,8 @@ def main(argv=None):
             'shards': NPROC,
             'violation_keys': [v[0] for v in violations],
         }
+        if fuzz_info is not None:
+            cov['coverage_guided'] = fuzz_info
         if exhaustive_part is not None:
             cov['enumerated_items'] = exhaustive_part
             cov['exhaustive'] = bool(getattr(prop, 'GRID_EXHAUSTIVE', False))
